@@ -106,7 +106,12 @@ structure Cfg where
   maxMap : Nat
   csv : Bool
   baseAuto : Bool
+  /-- registered converters (WithConverter / WithTypeConverter, the Binder's overridden by per-call ones):
+      leaf type ↦ converter, for time.Time (`timeKey`) and the opaque kinds (their number) -/
+  convs : List (Nat × Nat) := []
   deriving Repr, Inhabited
+
+@[reducible] def timeKey : Nat := 100
 
 /-- `DefaultMaxDepth`, `DefaultMaxSliceLen`, `DefaultMaxMapSize` of binding/options.go -/
 @[reducible] def defaultMaxDepth : Nat := 32
@@ -131,6 +136,8 @@ structure PEntry where
   j : Option (List (Bytes × Bytes)) := none
   /-- opaque kinds: kind ↦ canonical rendering of the parsed value (absent: the parse fails) -/
   o : List (Nat × Bytes) := []
+  /-- registered converters: converter ↦ canonical rendering of its result (absent: it returns an error) -/
+  c : List (Nat × Bytes) := []
   deriving Repr, Inhabited
 
 abbrev Params := Bytes → PEntry
